@@ -747,6 +747,9 @@ OPS = [
      "a.into_iter().zip(b2.into_iter()).fold(0u8, |acc: u8, (x, y): (u8, u8)| acc.wrapping_mul(3).wrapping_add(x).wrapping_sub(y))", "u8", 5),
     ("unzip", ARR + ARR2, "[(a[0], b2[0]), (a[1], b2[1])].into_iter() <-> u8, u8, Vec<u8>, Vec<u8>",
      "[(a[0], b2[0]), (a[1], b2[1])].into_iter().unzip::<u8, u8, Vec<u8>, Vec<u8>>()", "(Vec<u8>, Vec<u8>)", 5),
+    # four DIFFERENT type operands: each must land in its own generic slot
+    ("unzip_asym", ARR + ARR2, "[(a[0], b2[0] as u16), (a[1], b2[1] as u16)].into_iter() <-> u8, u16, Vec<u8>, Vec<u16>",
+     "[(a[0], b2[0] as u16), (a[1], b2[1] as u16)].into_iter().unzip::<u8, u16, Vec<u8>, Vec<u16>>()", "(Vec<u8>, Vec<u16>)", 5),
     ("unzip_bare", ARR + ARR2, "[(a[0], b2[0]), (a[1], b2[1])].into_iter() <->", "[(a[0], b2[0]), (a[1], b2[1])].into_iter().unzip()", "(Vec<u8>, Vec<u8>)", 5),
 ]
 
